@@ -157,6 +157,11 @@ Definition string1_escape (st : lst) (c : Z) : lst :=
   | None => if c =? 13 then set_mode MStringCR st else set_mode MString st
   end.
 
+(* the bytes _parse_string_1 consumes after the backslash: the escapes of ESC_STRING, CR and LF (line continuation);
+   before any other byte the backslash alone is dropped and the byte is read again as an ordinary string byte *)
+Definition escape_consumes (c : Z) : bool :=
+  match lookup c ESC_STRING with Some _ => true | None => (c =? 13) || (c =? 10) end.
+
 (* ---- CHUNK layer: (bytes consumed, new state), apos not yet advanced ------------ *)
 Definition nat_len (l : list Z) : nat := length l.
 
@@ -223,7 +228,8 @@ Definition p_string1 (st : lst) (s : list Z) : nat * lst :=
   | [] => (O, st)
   | c :: _ => if re_OCT_STRING c && (len (oct st) <? 3) then (1%nat, set_oct (oct st ++ [c]) st)
               else if nonempty (oct st) then (O, end_oct st)
-              else (1%nat, string1_escape st c)
+              else if escape_consumes c then (1%nat, string1_escape st c)
+              else (O, set_mode MString st)
   end.
 
 Definition p_stringcr (st : lst) (s : list Z) : nat * lst :=
@@ -341,7 +347,8 @@ Definition step_string (st : lst) (c : Z) : lst :=
 Definition step_string1 (st : lst) (c : Z) : lst :=
   if re_OCT_STRING c && (len (oct st) <? 3) then set_oct (oct st ++ [c]) st
   else if nonempty (oct st) then step_string (end_oct st) c
-  else string1_escape st c.
+  else if escape_consumes c then string1_escape st c
+  else step_string (set_mode MString st) c.
 
 Definition step_stringcr (st : lst) (c : Z) : lst :=
   if c =? 10 then set_mode MString st else step_string (set_mode MString st) c.
